@@ -1,7 +1,7 @@
 /-!
 # C06 — white space and comments between tokens
 
-Model of `Lexer::read_input` (`feel-parser/src/lexer.rs:423-442`): before every token the
+Model of `Lexer::read_input` (`feel-parser/src/lexer.rs:423-443`): before every token the
 lexer repeats `consume_whitespace; consume_comment` until the position no longer moves —
 any sequence of white space and comments is skipped.  Characters are code points (`Nat`).
 Imports nothing.
@@ -9,26 +9,26 @@ Imports nothing.
 
 namespace Dmn.GapLayout
 
-/-- lexer.rs:1018-1020 -/
+/-- lexer.rs:1024-1026 -/
 def isVerticalSpace (c : Nat) : Bool := 0x0A ≤ c && c ≤ 0x0D
 
-/-- lexer.rs:1007-1014 -/
+/-- lexer.rs:1013-1020 -/
 def isWhitespace (c : Nat) : Bool :=
   isVerticalSpace c || c == 0x09 || c == 0x20 || c == 0x85 || c == 0xA0 || c == 0x1680 ||
     c == 0x180E || (0x2000 ≤ c && c ≤ 0x200B) || c == 0x2028 || c == 0x2029 || c == 0x202F ||
     c == 0x205F || c == 0x3000 || c == 0xFEFF
 
-/-- `consume_whitespace` (lexer.rs:446-454). -/
+/-- `consume_whitespace` (lexer.rs:452-460). -/
 def skipWs : List Nat → List Nat
   | [] => []
   | c :: cs => if isWhitespace c then skipWs cs else c :: cs
 
-/-- Inside `// …`: up to, not including, the line feed (lexer.rs:461-469). -/
+/-- Inside `// …`: up to, not including, the line feed (lexer.rs:467-475). -/
 def skipLine : List Nat → List Nat
   | [] => []
   | c :: cs => if c == 0x0A then c :: cs else skipLine cs
 
-/-- Inside `/* …`: through the first `*/` (lexer.rs:470-481). -/
+/-- Inside `/* …`: through the first `*/` (lexer.rs:476-487). -/
 def skipBlock : List Nat → List Nat
   | [] => []
   | c :: cs =>
@@ -38,7 +38,7 @@ def skipBlock : List Nat → List Nat
       | [] => []
     else skipBlock cs
 
-/-- `consume_comment` (lexer.rs:458-484): one comment, if one starts here. -/
+/-- `consume_comment` (lexer.rs:464-490): one comment, if one starts here. -/
 def skipComment : List Nat → List Nat
   | [] => []
   | c :: cs =>
